@@ -277,4 +277,11 @@ theorem EnvOf.ofPrequest {s : Schema} {env : RequestEnv} {q : Request} (h : EnvO
   obtain ⟨⟨h1, h2, h3, a, ha, h4⟩, hp, hr⟩ := h
   exact ⟨h1, h2, h3, ⟨a, ha, h4⟩, hp, hr⟩
 
+/-- `ValidStatic` from the premises in C03's vocabulary: distinct record keys (Rust's `ExprKind::Record` is a map), no slot
+(`SlotsLinked` in an environment without slot types), accepted by the strict typechecker -/
+theorem validStatic_of {s : Schema} {p : Policy} (hst : p.env = []) (hk : RecordKeysDistinct p.condition = true)
+    (hsl : ∀ env, SlotsLinked env p.condition = true) {vs : List (RequestEnv × Verdict)}
+    (hcp : checkPolicy .strict s .absent .absent p.condition = some vs) (hacc : accepted vs = true) : ValidStatic s p :=
+  ⟨hst, fun env => inFragment2_of env p.condition hk (hsl env), ⟨vs, hcp, hacc⟩⟩
+
 end Cedar.Tpe.Valid
